@@ -129,8 +129,15 @@ def make(cfg):
     return det
 
 
+INDEX_MODE = [None]      # "rev": reference frames carry a non-default index (a permutation of 0..N-1), as a frame that was
+                         # shuffled or filtered without reset_index does; rows keep their positions
+
+
 def frame(rows, cols):
-    return pd.DataFrame({c: [r[i] for r in rows] for i, c in enumerate(cols)})
+    df = pd.DataFrame({c: [r[i] for r in rows] for i, c in enumerate(cols)})
+    if INDEX_MODE[0] == "rev" and len(df) > 1:
+        df.index = list(range(len(df)))[::-1]
+    return df
 
 
 # ------------------------------------------------------------------ calls
@@ -251,6 +258,7 @@ def run_impl(case):
     hit = _OBS_CACHE.pop(id(case), None)
     if hit is not None and hit[0] is case:
         return hit[1]
+    INDEX_MODE[0] = case.get("index")
     det = make(case["cfg"])
     res = {"start": observe(det), "edges": []}
     for op in case["ops"]:
@@ -667,6 +675,7 @@ def extra(ctx):
     # the quantifier restriction of the pre-study, witnessed on the implementation (not a violation of the property:
     # the detector was configured with fewer labels than folds)
     cfg = dict(CFG["A"], k=3, req=2)
+    INDEX_MODE[0] = None
     det = make(cfg)
     trace = []
     for op in [["u", 0.25, 0.0], ["l", 2.0, 0.0, 1, "ok"], ["l", 2.0, 0.0, 1, "ok"], ["l", 2.0, 0.0, 1, "ok"], ["u", 2.0, 0.0]]:
@@ -868,6 +877,13 @@ def gen_cases(ctx):
                 rnd.append(c2); tp += 1
     ctx.stats.update({"random_histories": len(rnd) - nsvc - tp, "svc_histories": nsvc, "two_pass_tie_histories": tp,
                       "tree_cases": len(cases)})
+    import random
+    r2 = random.Random(ctx.seed + 11)
+    for c in cases + rnd:
+        if r2.random() < 0.35:
+            c["index"] = "rev"
+            _OBS_CACHE.pop(id(c), None)       # (an observation made while generating the history used the default index)
+    ctx.stats["reference_with_non_default_index"] = sum(1 for c in cases + rnd if c.get("index"))
     return cases + rnd
 
 
